@@ -298,10 +298,23 @@ def normalise_tree(tree: ast.AST) -> None:
         def visit_Match(self, node):
             self.generic_visit(node)
             subj = node.subject
+            pre = []
             if not all(isinstance(x, (ast.Name, ast.Attribute, ast.expr_context)) for x in ast.walk(subj)):
-                return node
+                # the subject is computed once: bind it to a fresh local first
+                self.n_tmp = getattr(self, 'n_tmp', 0) + 1
+                tmp = f'__match_subject_{self.n_tmp}'
+                pre = [ast.copy_location(ast.Assign(targets=[ast.Name(id=tmp, ctx=ast.Store())], value=subj), node)]
+                subj = ast.Name(id=tmp, ctx=ast.Load())
             tests = []
             for c in node.cases:
+                if isinstance(c.pattern, ast.MatchAs) and c.pattern.pattern is None and c.pattern.name is not None and c is node.cases[-1]:
+                    # `case other:` - the irrefutable capture: the subject under that name
+                    bind = ast.copy_location(ast.Assign(targets=[ast.Name(id=c.pattern.name, ctx=ast.Store())],
+                                                        value=ast.Name(id=getattr(subj, 'id', ''), ctx=ast.Load())
+                                                        if isinstance(subj, ast.Name) else subj), node)
+                    t = ast.Constant(value=True) if c.guard is None else c.guard
+                    tests.append((t, [bind] + list(c.body)))
+                    continue
                 t = pattern_test(subj, c.pattern)
                 if t is None:
                     return node
@@ -320,6 +333,8 @@ def normalise_tree(tree: ast.AST) -> None:
                 for x in ast.walk(st):
                     if not hasattr(x, 'lineno') and isinstance(x, (ast.expr, ast.stmt)):
                         ast.copy_location(x, node)
+            if pre:
+                return pre + out
             return out if len(out) > 1 or not isinstance(out[0], ast.If) else out[0]
     if any(isinstance(x, ast.Match) for x in ast.walk(tree)):
         MatchToIf().visit(tree)
@@ -1884,8 +1899,22 @@ class Program:
         if fi.fq in cache:
             return cache[fi.fq]
         cache[fi.fq] = ANY            # recursion guard
-        if any(isinstance(n, (ast.Yield, ast.YieldFrom)) for n in iter_own_nodes(fi.node)):
-            return ANY                # a generator: calling it hands out an iterator, never None
+        ys = [n for n in iter_own_nodes(fi.node) if isinstance(n, (ast.Yield, ast.YieldFrom))]
+        if ys:
+            # a generator: calling it hands out an iterator (never None) over what it yields
+            env = TypeEnv(self, fi)
+            ts = []
+            for y in ys:
+                if y.value is None:
+                    ts.append(NONE)
+                elif isinstance(y, ast.Yield):
+                    ts.append(env.type_of(y.value))
+                else:
+                    ts.append(TypeEnv.elem_type(env.type_of(y.value)))
+            ts = [t for t in ts if t[0] != 'any'] or [ANY]         # (a recursive `yield from` of itself adds nothing new)
+            t = t_list(union(ts))
+            cache[fi.fq] = t
+            return t
         rets = [n for n in iter_own_nodes(fi.node) if isinstance(n, ast.Return)]
         if not rets or any(r.value is None for r in rets):
             t = ANY if rets else NONE
@@ -2451,6 +2480,10 @@ class TypeEnv:
             if fi.node.returns is None:
                 return prog.inferred_return_type(fi)
             at = prog.ann_to_type(fi.module, fi.node.returns, fi.cls)
+            if at[0] == 'list' and at[1][0] == 'any' and any(isinstance(y_, (ast.Yield, ast.YieldFrom)) for y_ in iter_own_nodes(fi.node)):
+                it = prog.inferred_return_type(fi)          # `-> Iterator[<alias>]`: what the generator yields says more
+                if it[0] == 'list' and it[1][0] != 'any':
+                    return it
             if strip_opt(at)[0] == 'any' and not fi.is_property and fi.node.body and \
                     not any(isinstance(y_, (ast.Yield, ast.YieldFrom)) for y_ in iter_own_nodes(fi.node)) and \
                     not any(isinstance(d_, ast.Name) and d_.id == 'abstractmethod' or isinstance(d_, ast.Attribute) and d_.attr == 'abstractmethod'
@@ -2675,6 +2708,8 @@ class TypeEnv:
                     # handed on from the caller's own parameter: follow one more level
                     encl = prog.enclosing_function(arg)
                     fi = next((x for x in prog.functions.values() if x.node is encl), None)
+                    if fi is fn and arg.id == pname:
+                        continue        # handed on to itself (recursion): nothing new
                     if fi is not None and arg.id in [a_.arg for a_ in fi.params()] and fi is not fn:
                         more = TypeEnv(prog, fi)._param_callees(arg.id)
                         for m_ in more:
@@ -2687,6 +2722,19 @@ class TypeEnv:
                     continue        # a value that is no function, and the call is under `callable(<param>)`: not called
                 else:
                     ok = False
+        # the default of the parameter is called where a call site leaves it out
+        a_ = fn.node.args
+        pos_ = list(a_.posonlyargs) + list(a_.args)
+        dflts_ = dict(zip([p_.arg for p_ in pos_][len(pos_) - len(a_.defaults):], a_.defaults))
+        dflts_.update({p_.arg: d_ for p_, d_ in zip(a_.kwonlyargs, a_.kw_defaults) if d_ is not None})
+        d_ = dflts_.get(pname)
+        if d_ is not None and not (isinstance(d_, ast.Constant) and d_.value is None):
+            dsym = prog.resolve_expr_symbol(fn.module, d_) if isinstance(d_, (ast.Name, ast.Attribute)) else None
+            if isinstance(dsym, FuncInfo):
+                if dsym not in out:
+                    out.append(dsym)
+            else:
+                ok = False
         res = out if ok and n_sites else []
         cache[key] = res
         return res
